@@ -24,6 +24,16 @@ PROPS = {
                    "Oracles: phase separation by arrival stamps, arrival->departure happens-before on plain stamps, completion (deadlock / no-progress detection).",
         level_note="Sampling over seeds, not enumeration. The pthread variant runs Galois's wrapper over the engine's pthread_barrier stub.",
         **tiers(3000, 100, 60000, 1200)),
+    "C06": dict(
+        jobs=[dict(harness="c06_locks", variant="a", weight=3), dict(harness="c06_locks", variant="n", weight=2),
+              dict(harness="c05_barrier", variant="n", weight=1)],
+        components=comp(), expected_probes=["region_fast", "region_sleep", "try_lock_failed", "ptrlock_cas_ok"],
+        design_ref="3.6",
+        level_text="Seeded exploration of lock/try_lock/unlock interleavings of SimpleLock, PaddedLock, PtrLock (all unlock variants, CAS, setValue) and ThreadRWlock with a "
+                   "holder-count invariant, plus a vector-clock happens-before check (honouring each atomic operation's declared memory_order) of the promised edges: "
+                   "unlock->lock, lockable hand-over between iterations, barrier arrival->departure, region entry/return in sleeping and fast mode, worklist push->pop.",
+        level_note="The HB tracker decides edges for the memory orders the compiled code requests; it does not explore stale-value (store-buffer) executions of the atomics themselves.",
+        **tiers(6000, 120, 100000, 1500)),
 }
 
 ALL_IDS = ["C%02d" % i for i in range(1, 21)]
